@@ -410,7 +410,15 @@ func (c *capture) GoString() string { return "capture{}" }
 func (c *capture) Parse(ctx *parseContext, parent reflect.Value) (out []reflect.Value, err error) {
 	defer ctx.printTrace(c)()
 	start := ctx.RawCursor()
+	outer := ctx.captureStart
+	ctx.captureStart = -1
 	v, err := c.node.Parse(ctx, parent)
+	if ctx.captureStart >= 0 {
+		start = ctx.captureStart // The first token matched, not the elided tokens before it.
+	}
+	if outer >= 0 {
+		ctx.captureStart = outer
+	}
 	if v != nil {
 		ctx.Defer(ctx.Range(start, ctx.RawCursor()), parent, c.field, v)
 	}
@@ -440,7 +448,7 @@ func (r *reference) Parse(ctx *parseContext, parent reflect.Value) (out []reflec
 	if token.Type != r.typ {
 		return nil, nil
 	}
-	ctx.FastForward(cursor)
+	ctx.consume(cursor)
 	return []reflect.Value{reflect.ValueOf(token.Value)}, nil
 }
 
@@ -467,7 +475,7 @@ func (l *literal) Parse(ctx *parseContext, parent reflect.Value) (out []reflect.
 	}
 	token, cursor := ctx.PeekAny(match)
 	if match(token) {
-		ctx.FastForward(cursor)
+		ctx.consume(cursor)
 		return []reflect.Value{reflect.ValueOf(token.Value)}, nil
 	}
 	return nil, nil
@@ -498,7 +506,8 @@ func (n *negation) Parse(ctx *parseContext, parent reflect.Value) (out []reflect
 	}
 
 	// Just give the next token
-	next := ctx.Next()
+	next, cursor := ctx.PeekAny(func(lexer.Token) bool { return false })
+	ctx.consume(cursor)
 	return []reflect.Value{reflect.ValueOf(next.Value)}, nil
 }
 
